@@ -5,14 +5,13 @@ from props._cfg_common import TRUSTED, ASSUMPTIONS, TECHNIQUE
 
 PROP = "C08"
 LEVEL = "proof"
-THEOREMS = {"Properties.C08": ["C08_member_oracle", "C08_generate_epsilon", "C08_cyk", "C08_contains"]}
+THEOREMS = {"Properties.C08": ["C08_member_oracle", "C08_generate_epsilon", "C08_cyk", "C08_contains", "C08_contains_total"]}
 LEVEL_TEXT = ("Proof + correspondence: C08_contains shows that the mirrored model of CFG.contains (generate_epsilon for the empty word; otherwise "
               "to_normal_form = fast-path test, five-stage clean-up, terminal lifting, binarisation with the suffix cache, then the CYK table) returns "
-              "True exactly when the start symbol derives the word, for every grammar and word on which the normal-form recursion finishes within its "
-              "fuel; C08_member_oracle gives an independent certified membership function for arbitrary grammars. contains/__contains__/generate_epsilon "
-              "of pyformlang are compared with both on every generated grammar and word (this also checks that the fuel always suffices).")
-LEVEL_NOTE = ("Trusted: Coq kernel; hand-written model validated by correspondence (the proof is about the model); Python harness. Not proved: that the "
-              "normal-form recursion always finishes after one clean-up (pyformlang would recurse for ever otherwise; checked per case).")
+              "True exactly when the start symbol derives the word, for every grammar and word; C08_contains_total shows that the normal-form recursion "
+              "always finishes (one clean-up reaches the fast path or leaves no production); C08_member_oracle gives an independent certified membership function for arbitrary grammars. contains/__contains__/generate_epsilon "
+              "of pyformlang are compared with both on every generated grammar and word.")
+LEVEL_NOTE = ("Trusted: Coq kernel; hand-written model validated by correspondence (the proof is about the model); Python harness.")
 RULE = ("random grammars (1-4 variables, 1-3 terminals, 1-8 productions, bodies 0-4; profiles plain/eps/unit/unitcycle/recursive/useless/longshared/"
         "nostartprod/cnf; plain and adversarial names) x all words up to length 4 (quick) / 5 (thorough) over the terminals plus an unknown symbol; "
         "non-trivial = at least 2 productions and a body of length >= 2")
